@@ -54,6 +54,10 @@ def _ev1(e, env, memo):
             return _round_half_even(a)
         if name == 'round2_':
             return _round_half_even(a * 100) / 100
+        if name == 'sqrt_':
+            if a < 0:
+                raise EvalError('sqrt of negative')
+            return Fraction(math.sqrt(float(a)))
         if name.startswith('pow_'):
             c = float(name[4:].replace('p', '.').replace('m', '-'))
             if a < 0:
